@@ -48,7 +48,7 @@ OUT_OF_REACH = ['GSS key exchange (no gssapi)', 'sntrup761 (no liboqs)',
                 'UMAC x client role against an independent peer']
 REQUIRED = ['ref_packets_checked', 'ref_packets_accepted', 'tap_packets',
             'tap_hashes_checked', 'segment_runs', 'openssh_runs',
-            'payload_lengths']
+            'payload_lengths', 'asymmetric_runs', 'ref_rekeys']
 BUDGET_S = {'quick': 300, 'thorough': 3000}
 CASE_TIMEOUT_S = 90
 
@@ -107,6 +107,26 @@ def gen_cases(tier, seed):
         for role in ('ref_client', 'ref_server'):
             add(role, enc='aes128-ctr', mac='hmac-sha2-256', kex=k.decode(),
                 cmp='none', big=False)
+    # different algorithms per direction (legal: the lists are per direction)
+    # and a re-exchange started by the reference side in mid-stream (its
+    # second KEXINIT carries no strict-KEX marker, as the extension says)
+    etm = [m for m in ref_mac if m.endswith(b'-etm@openssh.com')]
+    plain = [m for m in ref_mac if not m.endswith(b'-etm@openssh.com')]
+    blockc = [e for e in ref_enc if e not in R.AEAD]
+    for i in range(16 if tier == 'quick' else 200):
+        a, b = rng.choice(etm), rng.choice(plain)
+        if i % 2:
+            a, b = b, a
+        add('ref_client', enc=rng.choice(blockc).decode(), mac=a.decode(),
+            enc_sc=rng.choice(blockc).decode(), mac_sc=b.decode(),
+            kex=rng.choice(refpeer.DEFAULT_KEX).decode(),
+            cmp=rng.choice(['none', 'zlib@openssh.com']),
+            cmp_sc=rng.choice(['none', 'zlib@openssh.com']),
+            big=False, rekey=rng.random() < 0.5)
+    for e, m in sorted(pairs)[:12 if tier == 'quick' else 200]:
+        add('ref_client', enc=e.decode(), mac=m.decode(),
+            kex=rng.choice(refpeer.DEFAULT_KEX).decode(), cmp='none',
+            big=False, rekey=True)
 
     # --- passive tap: every kex, every cipher, every MAC, every compression
     for k in kex:
@@ -197,8 +217,14 @@ async def _echo(process):
 
 
 def _alg_opts(case):
-    return dict(kex_algs=[case['kex']], encryption_algs=[case['enc']],
-                mac_algs=[case['mac']], compression_algs=[case['cmp']])
+    # the asyncssh side offers everything named for either direction
+    def both(a, b):
+        return [case[a]] + ([case[b]] if case.get(b) and
+                            case[b] != case[a] else [])
+    return dict(kex_algs=[case['kex']],
+                encryption_algs=both('enc', 'enc_sc'),
+                mac_algs=both('mac', 'mac_sc'),
+                compression_algs=both('cmp', 'cmp_sc'))
 
 
 # ------------------------------------------------------------ reference peer
@@ -212,15 +238,36 @@ def _run_ref_client(case, mon, viol, tier):
                 apps.EventLog()), chunking=case['chunk'], seed=case['cseed'],
                 server_opts=dict(process_factory=_echo, encoding=None,
                                  **_alg_opts(case))) as env:
+            extra_kw = {}
+            for k_ in ('enc_sc', 'mac_sc', 'cmp_sc'):
+                if case.get(k_):
+                    extra_kw[k_] = [case[k_].encode()]
+            if extra_kw:
+                mon['asymmetric_runs'] += 1
             peer = await hostile.ref_client(
                 env.wire, kex=[case['kex'].encode()],
                 enc=[case['enc'].encode()], mac=[case['mac'].encode()],
-                cmp=[case['cmp'].encode()])
+                cmp=[case['cmp'].encode()], **extra_kw)
             ch = await hostile.ref_client_exec(peer)
             sent = bytearray()
             got = bytearray()
             closed = False
-            for n in lengths:
+            for idx_, n in enumerate(lengths):
+                if case.get('rekey') and idx_ == len(lengths) // 2:
+                    # quiesce, take what has been echoed so far, re-exchange
+                    await env.settle()
+                    while not peer.queue.empty():
+                        it = peer.queue.get_nowait()
+                        if it[0] == 'packet' and \
+                                it[2][0] == R.MSG_CHANNEL_DATA:
+                            r = R.Reader(it[2], 1)
+                            r.u32()
+                            got += r.str()
+                        elif it[0] in ('lost', 'eof', 'error'):
+                            peer.queue.put_nowait(it)
+                            break
+                    await peer.kex()
+                    mon['ref_rekeys'] += 1
                 data = apps.stream_bytes(('c02', n), n)
                 payload = peer.channel_data(ch['remote_id'], data)
                 # legal non-minimal padding from the reference side
